@@ -1107,6 +1107,8 @@ static int mode_levelops(const std::string& what, int cases)
         const int extrap = what == "smooth" ? rng.range(0, 3) : rng.range(0, 1);
         o.set("maxLevels", L); o.set("extrapolation", extrap); o.set("FMG", 0);
         o.set("maxOpenMPThreads", rng.pick(std::vector<int>{1, 2, 4}));
+        // the give strategy runs with every combination of the two level caches, in turn (take requires both)
+        if (o.kv["stencilDistributionMethod"] == "1") { o.set("cacheDensityProfileCoefficients", c & 1); o.set("cacheDomainGeometry", (c >> 1) & 1); }
         GMGPolar g;
         o.apply(g);
         g.setup();
